@@ -34,4 +34,31 @@ def firstConflict : List SpanRec → Option (SpanRec × SpanRec)
 def traceOk (gran : Nat) (spans : List SpanRec) : Bool :=
   spans.all (spanOk gran) && (firstConflict spans).isNone
 
+/-! ### program order inside a linearisation (hook H2)
+
+`lin` = the critical sections in lock order, each tagged with the thread that ran it, that thread's operation counter and a
+signature of the operation and its result as recorded INSIDE the critical section; `po` = what each thread itself logged, in its
+own order, with the result the CALLER saw.  The linearisation respects program order when, for every thread, the events of that
+thread appear in `lin` exactly in the order (and with the results) the thread logged them. -/
+
+structure LinEv where
+  tid : Nat
+  seq : Nat
+  sig : String
+  deriving Repr, DecidableEq
+
+def ofThread (t : Nat) (l : List LinEv) : List LinEv := l.filter (·.tid == t)
+
+/-- operation counters of one thread are 0, 1, 2, … -/
+def seqFrom : Nat → List LinEv → Bool
+  | _, [] => true
+  | k, e :: r => e.seq == k && seqFrom (k + 1) r
+
+/-- first thread whose projection of the linearisation differs from its own log -/
+def firstDisorder (threads : Nat) (lin po : List LinEv) : Option Nat :=
+  (List.range threads).find? fun t => !(ofThread t lin == ofThread t po && seqFrom 0 (ofThread t po))
+
+def programOrderOk (threads : Nat) (lin po : List LinEv) : Bool :=
+  (firstDisorder threads lin po).isNone && lin.all (·.tid < threads) && po.all (·.tid < threads)
+
 end AsmjitVerif.JitTrace
